@@ -9,7 +9,7 @@ FAMILY = {
     "C02": {"First", "ArgMax", "Point", "Inside"},
     "C03": {"Count", "Budget", "StopLate", "StopEarly", "Accuracy", "SolveReturns", "NoIntExc", "DgiCount",
             "SolveReturnsResults"},
-    "C04": {"BestValue", "BestIsTrial", "BestAtPoint", "BestPresent"},
+    "C04": {"BestValue", "BestIsTrial", "BestAtPoint", "BestPresent", "RefValue"},   # RefValue: reported value = objective at the reported point, after refinement
     "C05": {"InBox", "RefInBox", "RefNotWorse", "RefValue", "RefPointInBox", "UnexpectedEvaluation"},
     "C06": {"SnapCount", "SnapLinks", "SnapOrder", "SnapZ", "SnapHolder", "SnapDelta", "SnapImage", "SnapEnds",
             "SnapIter", "ZLogged", "YLogged", "Image", "SameHolder"},
